@@ -135,7 +135,7 @@ impl Accum {
             let hv = h.finish();
             if g.nontrivial.insert(hv) && g.samples.len() < 4 {
                 if let Ok(v) = serde_json::to_value(case) {
-                    g.samples.push(v);
+                    g.samples.push(shorten_sample(v));
                 }
             }
         }
@@ -552,4 +552,22 @@ pub fn run_with_timeout<T: Send + 'static>(secs: u64, f: impl FnOnce() -> T + Se
 
 pub fn replay_timeout() -> u64 {
     std::env::var("VERIF_REPLAY_TIMEOUT").ok().and_then(|s| s.parse().ok()).unwrap_or(30)
+}
+
+
+/// keep evidence files small: long arrays inside a sample are cut to their first elements
+pub fn shorten_sample(v: Value) -> Value {
+    match v {
+        Value::Array(a) => {
+            let n = a.len();
+            let mut out: Vec<Value> = a.into_iter().take(40).map(shorten_sample).collect();
+            if n > 40 {
+                out.push(json!(format!("... {} more elements", n - 40)));
+            }
+            Value::Array(out)
+        }
+        Value::Object(m) => Value::Object(m.into_iter().map(|(k, v)| (k, shorten_sample(v))).collect()),
+        Value::String(s) if s.len() > 600 => Value::String(format!("{}...({} chars)", &s[..600], s.len())),
+        other => other,
+    }
 }
